@@ -62,7 +62,8 @@ def run(ctx):
         "or database/sql rolls back after the handle's context was cancelled; the cancelling step waits "
         "until that rollback reached the driver) makes Transact's own commit impossible: the caller must "
         "get a non-nil error even if the step committed successfully (decision stated in Transact.tla)",
-        "returned error is classified by errors.As/Is against the step / driver sentinels; 'describes "
+        "the returned error is attributed to step i when it is (or wraps) the very value closure i "
+        "returned; otherwise it is classified by errors.As/Is against the step / driver sentinels; 'describes "
         "the panic' = the error text contains the panic value's text",
     ]
     return ctx.finish(
@@ -70,10 +71,13 @@ def run(ctx):
              "outcomes, 0..2 statements, step ends the transaction itself by commit/rollback or not, 0..2 "
              "arguments, begin/commit/rollback faults, context cancelled never / before the call / inside "
              "step k; distinct by content) "
-             "+ exhaustive enumeration of all step lists up to length 3 (thorough 4) over 11 step variants "
-             "and up to length 2 (3) over all 23 variants, each with every fault placement that matters and "
+             "+ exhaustive enumeration of all step lists up to length 3 (thorough 4) over 13 step variants "
+             "and up to length 2 (3) over all 30 variants, each with every fault placement that matters and "
              "(lists up to 2 steps: every; longer: sampled) cancellation points "
-             "+ seeded random lists up to 12 (24) steps; "
+             "+ seeded random lists up to 12 (24) steps; a failing step returns one of 13 kinds of error "
+             "(own, driver statement error, wrapped, gorm.ErrRecordNotFound plain/wrapped, MySQL 1062 / "
+             "1105 duplicate / 1213, gRPC NotFound/AlreadyExists, sql.ErrTxDone, context.Canceled, "
+             "gorm.ErrInvalidTransaction) - the specification treats them all alike; "
              "arguments are raw steps or (nested / empty) Combine groups",
         explanation="Transact.tla model-checked exhaustively; every driver event (begin, exec+in-tx flag, "
                     "commit, rollback), every step entry/exit and the returned error class of every real "
